@@ -52,6 +52,31 @@ impl Proj {
 }
 
 /// per-file code counts as reported by one invocation (`check --format json` or `stats files`)
+/// total, code, comment and blank lines in one number (each below 10 000 in these projects);
+/// histories that only look at code lines keep working: the code count is the lowest part
+fn pack(v: &serde_json::Value) -> Option<u64> {
+    let g = |k: &str| v.get(k).and_then(serde_json::Value::as_u64);
+    Some(g("code")? + 10_000 * (g("comment")? + 10_000 * (g("blank")? + 10_000 * g("total")?)))
+}
+
+/// every count of every listed file (scenarios compare cached and uncached runs on all of them)
+fn per_file_full(out: &str, cmd: usize) -> Option<BTreeMap<String, u64>> {
+    let v: serde_json::Value = serde_json::from_str(out).ok()?;
+    let mut m = BTreeMap::new();
+    if cmd == 0 {
+        for r in v.get("results")?.as_array()? {
+            let p = r.get("path")?.as_str()?.trim_start_matches("./").to_string();
+            m.insert(p, pack(r.get("stats")?)?);
+        }
+    } else {
+        for r in v.get("top_files").or_else(|| v.get("files"))?.as_array()? {
+            let p = r.get("path")?.as_str()?.trim_start_matches("./").to_string();
+            m.insert(p, pack(r)?);
+        }
+    }
+    Some(m)
+}
+
 fn per_file(out: &str, cmd: usize) -> Option<BTreeMap<String, u64>> {
     let v: serde_json::Value = serde_json::from_str(out).ok()?;
     let mut m = BTreeMap::new();
@@ -231,6 +256,12 @@ fn language_history(sink: &mut Sink, scratch: &str, bin: &str, variant: usize) {
         ("b.rs", "let a = 1;\nlet b = 2;\n"),
         ("src/b.rs", "// aaaaaaa\n// bbbbbbb\n"),
         ("src/sub/b.rs", "let a = 1;\n// bbbbbbb\n"),
+        // names that differ only in letter case, same size, same modification time
+        ("Twin.rs", "let a = 1;\nlet b = 2;\n"),
+        ("twin.rs", "// aaaaaaa\n// bbbbbbb\n"),
+        // directives: a file that asks to be ignored, and ignored lines (they count in `total` only)
+        ("gen.rs", "// sloc-guard:ignore-file\nlet a = 1;\nlet b = 2;\n"),
+        ("ign.rs", "let a = 1;\n// sloc-guard:ignore-next 2\nlet b = 2;\nlet c = 3;\nlet d = 4;\n"),
     ];
     for (f, c) in files {
         std::fs::write(dir.join(f), c).unwrap();
@@ -285,7 +316,7 @@ fn language_history(sink: &mut Sink, scratch: &str, bin: &str, variant: usize) {
                 let parts: Vec<&str> = st.target.split(' ').collect();
                 if cmd == 0 { args.extend(parts.iter()); } else { args.push(parts[parts.len() - 1]); }
                 let (rc, out, err) = sub.run(now + k as u64, &args);
-                (rc, per_file(&out, cmd), err)
+                (rc, per_file_full(&out, cmd), err)
             };
             let (rc_u, unc, _) = run(false);
             let (rc_c, cac, err) = run(true);
